@@ -298,11 +298,17 @@ def run(ctx):
     # ---- E1 (background thread 2): TLC, every operand tuple at the small moduli
     def e1_jobs():
         full = ['Pairs', 'Triples', 'Quads', 'SizesExact']
-        out = [ctx.tlc('MCSeqNum', cfg(constants=dict(M=16), invariants=full + ['QuadsSym', 'Shift']), SPEC,
+        out = [ctx.tlc('MCSeqNum', cfg(constants=dict(M=16), invariants=full + ['QuadsLit', 'Shift']), SPEC,
                        name='MCSeqNum-M16', must_pass=True, count=False),
+               # U32 (16-bit halves) is the same function as SeqNum: B=4 (quads for one a in quick, all in thorough)
+               ctx.tlc('MCU32', cfg(constants=dict(B=4, QA=vlib.MV('0 .. 15') if th else vlib.MV('{7}')),
+                                    invariants=['Arith', 'Pairs', 'Triples', 'Quads']), SPEC,
+                       name='MCU32-B4', must_pass=True, count=False),
                ctx.tlc('MCSeqNum', cfg(constants=dict(M=32), invariants=full), SPEC,
                        name='MCSeqNum-M32', must_pass=True, count=False, timeout=1500)]
         if th:
+            out.append(ctx.tlc('MCU32', cfg(constants=dict(B=8, QA=vlib.MV('{}')), invariants=['Arith', 'Pairs', 'Triples', 'Quads']),
+                               SPEC, name='MCU32-B8', must_pass=True, count=False))
             out.append(ctx.tlc('MCSeqNum', cfg(constants=dict(M=64), invariants=['Pairs', 'Triples', 'Quads']), SPEC,
                                name='MCSeqNum-M64', must_pass=True, count=False, timeout=3000))
         return out
@@ -317,14 +323,6 @@ def run(ctx):
     per = ((len(evs) + ngroups - 1) // ngroups + SEG - 1) // SEG * SEG
     fut_vec = [pool.submit(validate, ctx, evs[g * per:(g + 1) * per], 'vec%d' % g, True, SEG, 6, False)
                for g in range(ngroups) if evs[g * per:(g + 1) * per]]
-
-    # ---- U32 (16-bit halves) is the same function as SeqNum: B=4 (quads for one a in quick, all in thorough), B=8 pairs/triples
-    qa = vlib.MV('0 .. 15') if th else vlib.MV('{7}')
-    ctx.tlc('MCU32', cfg(constants=dict(B=4, QA=qa), invariants=['Arith', 'Pairs', 'Triples', 'Quads']), SPEC,
-            name='MCU32-B4', must_pass=True)
-    if th:
-        ctx.tlc('MCU32', cfg(constants=dict(B=8, QA=vlib.MV('{}')), invariants=['Arith', 'Pairs', 'Triples', 'Quads']), SPEC,
-                name='MCU32-B8', must_pass=True)
 
     # ---- table of the definitions at modulus 2^k (TLC), oracle of the embedding sweep
     ks = [4, 5] if th else [4]
